@@ -33,7 +33,9 @@
 //
 // # Components (all types start with "k"; all support the four signals, profiles via the x* packages)
 //
-//   - receiver "krecv": one instance per (signal, id); does nothing by itself, see [Injector].
+//   - receiver "krecv": one instance per (signal, id); does nothing by itself, see [Injector]:
+//     Inject sends a fresh payload; [Injector.SendPayload] can mark the payload read-only before
+//     sending and re-send the very same payload object after a downstream error ([SendOptions]).
 //   - receiver "kshared": sharedcomponent-based; one underlying component per id for all signals.
 //   - processor "kproc": config {mutates: bool (default true)}. A mutating processor appends
 //     "<id>#<instance>" to the trail attribute of the payload and declares MutatesData; a non-mutating
@@ -42,7 +44,8 @@
 //     mutating exporter declares MutatesData and really mutates the payload it was given (marker
 //     "kit.mark.<key>;", synchronously or from a goroutine after returning); read_async re-reads the
 //     payload from a goroutine after returning; keep retains the payload and its bytes at call time for
-//     non-interference oracles; fail makes Consume return an error (after recording).
+//     non-interference oracles; fail makes Consume return an error (after recording); fail_first
+//     refuses only the instance's first call (for retrying receivers, see [AddSoloPipeline]).
 //   - connectors: the types in [ConnectorTypes] differ in the signal pairs their factory supports
 //     ("kconn" all 16, "ksame" the 4 same-signal pairs, "kl2m" logs→metrics only, ...). Config
 //     {mode: convert|mutate|pass, routes: {<destination signal>: [pipeline ids]}}: convert builds a
